@@ -96,3 +96,18 @@ var SelfHolderKinds = []SelfHolderKind{
 	{"required interface point two embeds deep", func() any { return &SelfHolderDeep{} }, true, false, true},
 	{"required interface point in an embed at offset 0", func() any { return &SelfHolderZero{} }, true, false, true},
 }
+
+// A holder with two injection points whose struct fields carry the same name: they live in two embedded structs
+// (reachable only through their embedding paths), each with a qualifier of its own.
+type ReadDeps struct {
+	Store IA   `wire:",qualifier=replica"`
+	All   []IA `wire:",qualifier=replica,required=false"`
+}
+type WriteDeps struct {
+	Store IA   `wire:",qualifier=primary"`
+	All   []IA `wire:",qualifier=primary,required=false"`
+}
+type TwoStores struct {
+	ReadDeps
+	WriteDeps
+}
